@@ -234,6 +234,23 @@ pub struct Excl {
 }
 
 impl Excl {
+    /// Switches used by generated histories. All seven findings these switches steered around
+    /// have been fixed in /repo (see known_findings.json), so nothing is excluded any more;
+    /// `VERIF_C19_EXCLUDE=all` restores the old steering.
+    pub fn current() -> Excl {
+        if std::env::var("VERIF_C19_EXCLUDE").ok().as_deref() == Some("all") {
+            return Excl::all();
+        }
+        Excl {
+            verify_all_files: false,
+            reentrant_cb: false,
+            long_file_name: false,
+            orphan_find: false,
+            misaligned_info: false,
+            hasfile_pending: false,
+            long_plain_offset: false,
+        }
+    }
     pub fn all() -> Excl {
         Excl {
             verify_all_files: true,
